@@ -46,6 +46,7 @@ class C06(Check):
     required_labels = ["blocks>=2", "codec:deflate", "codec:bzip2", "codec:xz", "codec:null", "cut:boundary", "cut:in-header", "cut:in-payload", "cut:in-sync", "sync-altered", "schemaless-prefix", "schemaless-prefix-with-reader-schema", "block-count-2bytes"]
     quick = (300, 1)
     thorough = (1500, 16)
+    case_timeout_s = 300  # a case enumerates up to 1500 cut offsets of one file
 
     def __init__(self):
         self.feat = gen.Features(big=False, max_depth=3, max_named=4, exotic_seqs=False)
